@@ -48,7 +48,7 @@ class Scenario:
         for i, p in enumerate(recipe['plugins']):
             specs.append({'name': 'P%d' % i, 'roles': p['roles'], 'order': p['order'], 'state': p['state'],
                           'ctor': 'raises' if p['state'] == 'ctor_raises' else 'ok',
-                          'faults': {cb: [n, 'E'] for (pi, cb, n) in faults if pi == i}})
+                          'faults': {cb: [n, recipe.get('fault_kind') or 'E'] for (pi, cb, n) in faults if pi == i}})
         self.specs = specs
         dotted, self.mname = plugsynth.make_module(self.world, specs)
         custom = dict(BUILTINS, APP_ROOT='/app', PLUGINS=dotted, POLL_TIMER=1000, SERVICE_SECURE='False')
@@ -150,6 +150,8 @@ class C20(Prop):
             'python_plugin_off': st.booleans(),
             'placements': st.lists(st.integers(0, 200), min_size=1, max_size=6 if tier == 'quick' else 1),
             'all_placements': st.just(tier != 'quick'),
+            # what the failing callback raises: an ordinary error, or the plugins' own "cannot work here" exception
+            'fault_kind': st.sampled_from(['E', 'E', 'D']),
         })
 
     def run_case(self, recipe):
@@ -182,6 +184,16 @@ class C20(Prop):
         if provs and base.resource.get('shared_key') != provs[-1]:
             out.violate('resource: the provider ordered last does not win the shared key',
                         {'got': base.resource.get('shared_key'), 'expected': provs[-1]})
+        # every active plugin takes part in every hit of the fault-free run (4 hits; only the first logger is used)
+        per_hit = {'decorator': ['decorate'], 'span': ['create_span', 'close'], 'metric': ['counter', 'gauge']}
+        for name in exp_loaded:
+            for role in recipe['plugins'][int(name[1:])]['roles']:
+                for cb in per_hit.get(role, []):
+                    n = len([c for c in base.world.calls if c[0] == name and c[1] == cb])
+                    if n != 4:
+                        out.violate('fault-free scenario: an active %s plugin got %s calls of %s' % (
+                            role, 'fewer' if n < 4 else 'more', cb), {'plugin': name, 'calls': n, 'expected': 4})
+                        return out
         # ---- placements ---------------------------------------------------------------------------------------
         placements = []
         seen = {}
